@@ -25,7 +25,10 @@ from sa.cli import PROPERTIES  # noqa: E402
 sys.setrecursionlimit(10000)
 
 # (refactoring id, property) -> reason why the check is allowed not to be silent (a refusal, exit 2, that is documented in DESIGN.md)
-EXPECTED: dict = {}
+EXPECTED: dict = {
+    ("r3_C20_2", "C20"): "quantities.__all__ computed from vars() by a comprehension: which names are exported is no longer a list of string literals the check can read; "
+                         "it refuses (exit 2) instead of guessing (DESIGN.md section 4)",
+}
 
 
 def apply_patch(diff_text: str) -> dict:
